@@ -135,7 +135,10 @@ def check_path(algo, w, ex):
     sig1 = algo.signature(r1)
     r2 = algo.run_solve(w, algo.StubConfig(w), order='natural', tag='s2')
     sig2 = algo.signature(r2)
-    if sig1 != sig2:
+    # (a user who refuses a prompt stops all further prompting, so which inputs
+    # end up supplied depends on the prompt order: the comparison is only
+    # meaningful when both runs got the same inputs, i.e. nobody refused)
+    if sig1 != sig2 and not cnt.refused and not r2['counters'].refused:
         v.append(('C05', 'order-dependent', 'result under the explored attempt order differs from the natural order: %s vs %s' % (short(sig1), short(sig2))))
     # ---------------------------------------------------------------- C13 / C05c: re-run on the written-back store
     if not cnt.refused:
